@@ -419,7 +419,7 @@ def strip_dummy(o):
     return o2
 
 
-def spot_check(case, mats, what, out, part, value, G, vscale=None):
+def spot_check(case, mats, what, out, part, value, G, vscale=None, gfloor=None):
     """One output number through the DEVGUIDE path: analytic gradient -> combine -> cmp_obs.
     G[k] = holomorphic derivative d out / d (M_k)_ab as complex (or real) arrays; `part` selects re / im of out."""
     grads, refs = [], []
@@ -438,6 +438,13 @@ def spot_check(case, mats, what, out, part, value, G, vscale=None):
             rf.mag[n_] = max(rf.mag[n_], float(vscale) ** 2 * max([r.mag.get(n_, 0.0) for r in refs] + [0.0]))
         for n_ in rf.cgmag:
             rf.cgmag[n_] = max(rf.cgmag[n_], float(vscale) ** 2 * max([r.cgmag.get(n_, 0.0) for r in refs] + [0.0]))
+    if gfloor is not None:
+        # a derivative that vanishes identically (zero cofactor) is computed by the library as det * inverse^T: a rounding residue
+        # of the size eps * (largest derivative) * |dA|
+        for n_ in rf.mag:
+            rf.mag[n_] = max(rf.mag[n_], float(gfloor) * max([r.mag.get(n_, 0.0) for r in refs] + [0.0]))
+        for n_ in rf.cgmag:
+            rf.cgmag[n_] = max(rf.cgmag[n_], float(gfloor) * max([r.cgmag.get(n_, 0.0) for r in refs] + [0.0]))
     cmp_obs(rf, strip_dummy(out), what, rtol=1e-9, atol_scale=1e-11, vtol=1e-10, check_rv=False)
 
 
@@ -740,7 +747,7 @@ def det_oracle(spec):
     a = case.values(m)
     val, _ = rm.leibniz(a)
     cof, _ = rm.cofactors(a)
-    spot_check(case, [m], what, res, 're', val, [cof])
+    spot_check(case, [m], what, res, 're', val, [cof], gfloor=float(np.max(np.abs(cof))))
     return finish(spec, [m], {'n:%d' % n, 'kind:' + spec['kind']})
 
 
